@@ -144,11 +144,12 @@ def mutants(njobs, only=None, all_props=False):
     from .props import PROPS
     ms = mutant_list()
     if only:
-        ms = [m for m in ms if m['name'] == only or m['name'].startswith(only)]
+        import fnmatch
+        ms = [m for m in ms if m['name'] == only or m['name'].startswith(only) or fnmatch.fnmatch(m['name'], only)]
     bad = 0
     for m in ms:
         props = sorted(PROPS) if all_props else (m['props'] or sorted(PROPS))
-        res = run_mutant(m, props, njobs)
+        res = run_mutant(m, props, njobs, extra_args=(['--scale', os.environ['VERIF_SCALE']] if os.environ.get('VERIF_SCALE') else ()))
         caught = [p for p, r in res.items() if r['rc'] == 1]
         harness = [p for p, r in res.items() if r['rc'] not in (0, 1)]
         status = 'CAUGHT' if any(p in caught for p in (m['props'] or props)) else 'MISSED'
